@@ -14,3 +14,5 @@ import Xandikos.Theorems.C06
 #print axioms Xandikos.Store.scan_exact
 #print axioms Xandikos.Theorems.C06.code_maps_uid_conflict
 #print axioms Xandikos.Theorems.C06.code_is_model_exception_tables
+#print axioms Xandikos.Theorems.C06.coherent_whatever_the_declared_type
+#print axioms Xandikos.Theorems.C06.handler_by_extension
